@@ -37,14 +37,8 @@ func (wl *WorkspaceLocker) Lock(ctx context.Context) error {
 
 	for {
 		logger.Debugf("Attempting to acquire workspace lock at %s", wl.lockFilePath)
-		file, err := os.OpenFile(wl.lockFilePath, os.O_RDWR|os.O_CREATE|os.O_EXCL, 0644)
-		if err == nil || errors.Is(err, os.ErrNotExist) {
-			_, writeErr := file.Write(pidStr)
-			file.Close()
-			if writeErr != nil {
-				os.Remove(wl.lockFilePath)
-				return writeErr
-			}
+		err := wl.createLockFile(pidStr)
+		if err == nil {
 			return nil
 		}
 		if !errors.Is(err, os.ErrExist) {
@@ -99,4 +93,28 @@ func processRunning(pid int) bool {
 	}
 	err = p.Signal(syscall.Signal(0))
 	return err == nil || errors.Is(err, syscall.EPERM)
+}
+
+// createLockFile makes the lock file appear together with its content: the PID
+// is written to a private temporary file which is then hard-linked to the lock
+// path. Like O_CREATE|O_EXCL, link(2) fails with EEXIST when the lock file
+// exists, but a contender can never read a lock file that does not name its
+// owner yet (it would take the empty file for a stale lock and remove it).
+func (wl *WorkspaceLocker) createLockFile(pid []byte) error {
+	tmp, err := os.CreateTemp(filepath.Dir(wl.lockFilePath), "lockfile.*.tmp")
+	if err != nil {
+		return err
+	}
+	defer os.Remove(tmp.Name())
+	_, err = tmp.Write(pid)
+	if err == nil {
+		err = tmp.Chmod(0644)
+	}
+	if closeErr := tmp.Close(); err == nil {
+		err = closeErr
+	}
+	if err != nil {
+		return err
+	}
+	return os.Link(tmp.Name(), wl.lockFilePath)
 }
